@@ -72,6 +72,8 @@ func buildTar(files []TarFile) ([]byte, error) {
 	return buf.Bytes(), nil
 }
 
+var lzmaEncMu sync.Mutex
+
 var (
 	toolMu    sync.Mutex
 	toolKnown = map[string]bool{}
@@ -110,6 +112,10 @@ func compress(codec string, data []byte) ([]byte, error) {
 		defer enc.Close()
 		return enc.EncodeAll(data, nil), nil
 	case "lzma":
+		// the third-party ENCODER (only the harness uses it) fills package-level tables on first
+		// use without a lock: one at a time
+		lzmaEncMu.Lock()
+		defer lzmaEncMu.Unlock()
 		var b bytes.Buffer
 		w := lzma.NewWriter(&b)
 		if _, err := w.Write(data); err != nil {
